@@ -182,6 +182,11 @@ def enum_cases():
                 yield {"items": [[role, "zeta", list(subset)]], "env": env}
         for subset in _subsets(["data", "builtin", "globals", "extra"]):
             yield {"items": [["bq_space", "my zeta", list(subset)]], "env": env}
+    # callee names that happen to be Python builtins: they are not a scope
+    for name in ("abs", "round", "max"):
+        for subset in _subsets(["builtin", "locals", "globals", "extra"]):
+            yield {"items": [["callee", name, list(subset)]], "env": 0}
+        yield {"items": [["dotted1", name, []]], "env": 1}
     for env in (50, 1000):
         yield {"items": [["arg", "zeta", ["extra"]]], "env": env}
         yield {"items": [["callee", "zeta", ["globals", "extra"]]], "env": env}
